@@ -73,10 +73,12 @@ CLAUSES = {
     "len": "System.__len__/ensures.equals_number_of_instances",
     "composition": "System.composition/ensures.counts_instances_per_species",
     "getitem_int": "System.__getitem__/ensures.int_index_agrees_with_file_order",
-    "index_error": "System.__getitem__/ensures.index_error_outside_range",
+    "index_error": "System.__getitem__/ensures.no_molecule_outside_range_some_exception",
     "slices": "System.__getitem__/ensures.slices_agree_with_file_order",
     "refuses": "System.add_molecule_top/ensures.refuses_topology_without_matching_run",
     "loads": "System.add_molecule_top/ensures.accepts_topology_of_present_species_after_reads",
+    # informational only (not in the statement): a mismatch is reported as undecided, never as a violation
+    "labels": "System.__iter__/informational.file_atom_ids_and_residue_labels_kept",
     "invariant": "System/internal-invariant.blocks_sorted_disjoint_in_range_consumed_marked",
 }
 
@@ -123,18 +125,21 @@ def _info_bounded(prop):
         "assumptions": ["species have distinct residue signatures (resname, atom count) -- the property's precondition; "
                         "only inputs satisfying it are generated",
                         "files are assembled from whole molecules; residue numbers increase along the file",
-                        "out-of-range integer index is required to raise IndexError (sequence protocol; the code's own "
-                        "'Molecule index out of range' branch)"],
+                        "an integer index outside [-len, len) must not return a molecule (list(System)[i] does not either); any "
+                        "exception type is accepted, the statement names none",
+                        "a molecule's place in the file is identified by its coordinates (distinct in the generated files); "
+                        "atom ids, residue names and residue numbers of the returned molecules are informational"],
         "explanation": ("Bounded run-time contract checking (smallscope) of the real System class: every sequence of 1..4 (quick) / "
                         "1..6 (thorough, exhaustive, not sampled) molecules over 4 species (single-residue 3 atoms; one atom; "
                         "three residues X,Y,X with gapped residue numbers; unloaded solvent) is written to a .gro file, every "
                         "permutation of the loading order of the loadable species present is used to construct "
                         "System(fgro, *ftops), and the clauses of the statement are evaluated on the public API: iteration "
                         "against the generator's record list (one molecule per instance, file order, contiguous disjoint runs, "
-                        "names equal to the topology's, names/residues/ids/coordinates equal to the file's), len and "
-                        "composition against the record list, every int index in [-len, len), IndexError outside, 20 fixed "
+                        "names equal to the topology's, names and coordinates equal to the file's), len and "
+                        "composition against the record list, every int index in [-len, len), no molecule (some exception) "
+                        "outside, 20 fixed "
                         "slices (plain, negative bounds, stepped, reversed) and a second iteration against the first iteration, "
-                        "refusal (IOError/OSError) of every absent topology added last or loaded first, including a Y,Y "
+                        "refusal (any exception) of every absent topology added last or loaded first, including a Y,Y "
                         "topology whose residue kinds are in the file but never as a run.  Each task evaluates one clause "
                         "group over the whole scope, so a clause has one obligation per scope family.  Plus: files of solvent "
                         "only (empty System), seeded random longer systems (7..24 quick / 7..60 thorough molecules, runs of "
@@ -144,11 +149,11 @@ def _info_bounded(prop):
                         "history family (every sequence <=3 quick / <=5 thorough, every loading order, every split point k "
                         "incl. 0: System(fgro, *first_k), all clauses evaluated (reads through every access route), then the "
                         "remaining topologies loaded one by one with add_ftop / add_molecule_top(MoleculeTop(..)), all "
-                        "clauses re-evaluated against the oracle after each load; System[-1] of a still empty System is left "
-                        "to the solvent-only obligation), and the shipped BMIM/BF4 box (300+300) in both loading orders against an "
-                        "independent fixed-column parse (int indices: every 7th plus both ends).  The class invariant of the "
-                        "private block list is an extra obligation labelled internal-invariant (undecided if the private "
-                        "layout changes).  Nothing is deductive."),
+                        "clauses re-evaluated against the oracle after each load), and the shipped BMIM/BF4 box (300+300) in both loading orders against an "
+                        "independent fixed-column parse (int indices: every 7th plus both ends).  Only what the statement names can be refuted; "
+                        "two informational obligations (atom ids / residue labels of the returned molecules equal the file's; "
+                        "class invariant of the private block list, labelled internal-invariant) report a mismatch as "
+                        "undecided with the reason, never as a violation."),
         "rule": ("one contract evaluation per (molecule sequence, loading order) and clause; per (case, index) for integer "
                  "indexing and per (case, slice) for slicing; non-trivial = cases with at least two recognised molecules"),
         "exhaustive": True,
@@ -215,7 +220,8 @@ def gro_text(records, title="c11 generated system"):
 
 
 def expected_molecules(records, instances, loaded):
-    """Fingerprints the System must expose, in file order: one per instance of a loaded species."""
+    """Fingerprints the System must expose, in file order: one per instance of a loaded species.
+    Layout as ``fingerprint``: (molecule name, atom names, topology atom names, coordinates, labels)."""
     out = []
     for key, start, n, _, _ in instances:
         if key not in loaded:
@@ -225,10 +231,9 @@ def expected_molecules(records, instances, loaded):
         out.append((SPECIES[key][0],
                     tuple(r["name"] for r in recs),
                     tuple(t[0] for t in tops),
-                    tuple(r["resname"] for r in recs),
-                    tuple(r["resid"] for r in recs),
-                    tuple(r["atomid"] for r in recs),
-                    tuple(tuple(round(c, 6) for c in r["pos"]) for r in recs)))
+                    tuple(tuple(round(c, 6) for c in r["pos"]) for r in recs),
+                    (tuple(r["resname"] for r in recs), tuple(r["resid"] for r in recs),
+                     tuple(r["atomid"] for r in recs))))
     return out
 
 
@@ -272,20 +277,59 @@ def _System():
 
 
 def fingerprint(mol):
+    """What the statement speaks about: species (molecule name of the topology), atom names, topology atom
+    names, coordinates.  The fifth field (residue names, residue numbers, atom ids) is informational."""
     atoms = list(mol)
     pos = mol.atoms_positions
+    try:
+        labels = (tuple(a.resname for a in atoms), tuple(int(a.gro_resid) for a in atoms),
+                  tuple(int(i) for i in mol.atoms_ids))
+    except Exception:
+        labels = None
     return (mol.name,
             tuple(a.name for a in atoms),
             tuple(t.name for t in mol.molecule_top),
-            tuple(a.resname for a in atoms),
-            tuple(int(a.gro_resid) for a in atoms),
-            tuple(int(i) for i in mol.atoms_ids),
-            tuple(tuple(round(float(c), 6) for c in p) for p in pos))
+            tuple(tuple(round(float(c), 6) for c in p) for p in pos),
+            labels)
 
 
-def _short(fp):
-    """(name, first atom id, n atoms) -- enough to identify the file record run."""
-    return [fp[0], fp[5][0] if fp[5] else None, len(fp[5])]
+def core(fp):
+    return fp[:4]
+
+
+def cores(fps):
+    return [fp[:4] for fp in fps]
+
+
+class FileIndex:
+    """Locates a molecule in the file by its coordinates (the generator makes them distinct; the shipped
+    file is handled by matching the whole run)."""
+
+    def __init__(self, records):
+        self.records = records
+        self.pos = [tuple(round(c, 6) for c in r["pos"]) for r in records]
+        self.where = {}
+        for k, p in enumerate(self.pos):
+            self.where.setdefault(p, []).append(k)
+
+    def locate(self, fp):
+        """index of the file atom the molecule starts at such that its coordinates are the file's contiguous
+        run from there; None if there is no such run."""
+        pos = fp[3]
+        if not pos:
+            return None
+        for k in self.where.get(pos[0], []):
+            if tuple(self.pos[k:k + len(pos)]) == tuple(pos):
+                return k
+        return None
+
+    def short(self, fp):
+        """[name, ordinal (1-based) of the first atom in the file, n atoms]"""
+        k = self.locate(fp)
+        if k is None and fp[3]:
+            c = self.where.get(fp[3][0], [])
+            k = c[0] if c else None
+        return [fp[0], None if k is None else k + 1, len(fp[3])]
 
 
 def _exc(e):
@@ -314,22 +358,23 @@ class Result:
         self.harness.setdefault(clause, msg)
 
 
-def check_system(s, exp, records, res, only=None, index_stride=1, skip_empty_last=False):
+def check_system(s, exp, records, res, only=None, index_stride=1):
     """Evaluate the public-API clauses of the statement on a constructed System ``s``.
 
     ``exp``: expected fingerprints in file order (oracle); ``records``: the file's atom records
-    (oracle), atom id k+1 at position k.  Iteration is compared with the oracle; indexing, slicing
-    and repeated iteration are compared with iteration ("agree with each other"), or directly with
-    the oracle when iteration itself fails, so that the conjunction is agreement of every access
-    route with the file.  ``only``: subset of clause groups to report (None = all)."""
+    (oracle).  Iteration is compared with the oracle; indexing, slicing and repeated iteration are
+    compared with iteration ("agree with each other"), or directly with the oracle when iteration
+    itself fails, so that the conjunction is agreement of every access route with the file.  Only
+    what the statement names is compared (species, atom names, topology atom names, coordinates);
+    atom ids and residue labels are informational.  ``only``: subset of clause groups (None = all)."""
     N = len(exp)
+    fi = FileIndex(records)
+    _short = fi.short
 
     def sel(k):
         return only is None or k in only
 
     needs_obs = only is None or any(k in ("iter", "int>=0", "int<0", "index_error") or k.startswith("slices:") for k in only)
-    if not needs_obs:
-        obs = None
     res_all = res
     if not sel("iter"):
         res = Result()      # iteration is only the reference here; its verdict belongs to another task
@@ -344,55 +389,65 @@ def check_system(s, exp, records, res, only=None, index_stride=1, skip_empty_las
     if obs is not None and sel("iter"):
         so, se = [_short(f) for f in obs], [_short(f) for f in exp]
         if so != se:
-            res.bad("file_order", f"list(System) gives (name, first atom id, n atoms) {so[:10]}; the file holds {se[:10]}")
+            res.bad("file_order", f"list(System) gives (name, first file atom, n atoms) {so[:10]}; the file holds {se[:10]}")
         else:
             res.ok("file_order")
-        # --- each molecule covers a contiguous run, disjoint from the others, whose names match the
-        #     topology atom by atom and whose names / residues / ids / coordinates are the file's
+        # --- each molecule covers a contiguous run of the file's atoms (identified by their coordinates),
+        #     disjoint from the others, whose names match the topology atom by atom
         msg = None
+        info_msg = None
         seen = set()
         for k, fo in enumerate(obs):
-            ids = fo[5]
-            if not ids:
+            n = len(fo[3])
+            start = fi.locate(fo)
+            if not n:
                 msg = f"molecule {k} has no atoms"
-            elif any(b != a + 1 for a, b in zip(ids, ids[1:])):
-                msg = f"molecule {k}: atom ids {list(ids)} are not a contiguous run"
-            elif ids[0] < 1 or ids[-1] > len(records):
-                msg = f"molecule {k}: atom ids {list(ids)} are not in the file (1..{len(records)})"
-            elif seen & set(ids):
-                msg = f"molecule {k}: atoms {sorted(seen & set(ids))} already belong to another molecule"
+            elif start is None:
+                msg = f"molecule {k}: coordinates {list(fo[3])[:4]}... are not those of a contiguous run of atoms of the file"
+            elif seen & set(range(start, start + n)):
+                msg = (f"molecule {k}: file atoms {sorted(x + 1 for x in seen & set(range(start, start + n)))} already belong "
+                       f"to another molecule")
             else:
-                seen.update(ids)
-                rr = records[ids[0] - 1:ids[-1]]
-                want = (tuple(r["name"] for r in rr), tuple(r["name"] for r in rr), tuple(r["resname"] for r in rr),
-                        tuple(r["resid"] for r in rr), tuple(r["atomid"] for r in rr),
-                        tuple(tuple(round(c, 6) for c in r["pos"]) for r in rr))
-                fld = ["atom names", "topology atom names", "residue names", "residue numbers", "atom ids", "coordinates"]
-                for j in range(6):
-                    if fo[1 + j] != want[j]:
-                        msg = (f"molecule {k} (atoms {ids[0]}..{ids[-1]}): {fld[j]} {fo[1 + j]!r} differ from the "
-                               f"file's {want[j]!r}")
-                        break
+                seen.update(range(start, start + n))
+                rr = records[start:start + n]
+                fnames = tuple(r["name"] for r in rr)
+                if fo[1] != fnames:
+                    msg = f"molecule {k} (file atoms {start + 1}..{start + n}): atom names {fo[1]!r} differ from the file's {fnames!r}"
+                elif fo[2] != fo[1]:
+                    msg = (f"molecule {k} (file atoms {start + 1}..{start + n}): atom names {fo[1]!r} do not match the "
+                           f"topology's {fo[2]!r} atom by atom")
+                elif info_msg is None:
+                    want = (tuple(r["resname"] for r in rr), tuple(r["resid"] for r in rr), tuple(r["atomid"] for r in rr))
+                    if fo[4] is None:
+                        info_msg = "residue names / residue numbers / atom ids not readable through resname, gro_resid, atoms_ids"
+                    elif fo[4] != want:
+                        info_msg = (f"molecule {k} (file atoms {start + 1}..{start + n}): (residue names, residue numbers, atom "
+                                    f"ids) {fo[4]!r} differ from the file's {want!r}")
             if msg:
                 break
-        if msg is None and so == se and obs != exp:
-            k = next(i for i in range(N) if obs[i] != exp[i])
-            msg = f"molecule {k}: {obs[k]!r} differs from the expected {exp[k]!r}"
+        if msg is None and so == se and cores(obs) != cores(exp):
+            k = next(i for i in range(N) if core(obs[i]) != core(exp[i]))
+            msg = f"molecule {k}: {core(obs[k])!r} differs from the expected {core(exp[k])!r}"
         if msg:
             res.bad("atoms", msg)
         else:
             res.ok("atoms")
+            if info_msg:
+                res.undecided("labels", "informational (not in the statement): " + info_msg)
+            else:
+                res.ok("labels")
         # --- iterating again gives the same
         try:
             again = [fingerprint(m) for m in s]
-            if again != obs:
+            if cores(again) != cores(obs):
                 res.bad("reiter", f"second iteration differs: {[_short(f) for f in again][:10]} vs {so[:10]}")
             else:
                 res.ok("reiter")
         except Exception as e:
             res.bad("reiter", f"second iteration raises {_exc(e)}", exc=type(e).__name__)
     res = res_all
-    ref = obs if obs is not None else exp
+    ref = cores(obs if obs is not None else exp)
+    ref_full = obs if obs is not None else exp
     what = "list(System)" if obs is not None else "the file order"
     R = len(ref)
     # --- len
@@ -429,27 +484,22 @@ def check_system(s, exp, records, res, only=None, index_stride=1, skip_empty_las
         ck = "getitem_int[i>=0]" if i >= 0 else "getitem_int[i<0]"
         try:
             fo = fingerprint(s[i])
-            if fo != ref[i]:
-                res.bad(ck, f"System[{i}] is {_short(fo)} (name, first atom id, n atoms); "
-                                       f"{what}[{i}] is {_short(ref[i])}", index=i)
+            if core(fo) != ref[i]:
+                res.bad(ck, f"System[{i}] is {_short(fo)} (name, first file atom, n atoms); "
+                            f"{what}[{i}] is {_short(ref_full[i])}", index=i)
             else:
                 res.ok(ck)
         except Exception as e:
             res.bad(ck, f"System[{i}] raises {_exc(e)}; {what} has {R} molecules", index=i,
                     exc=type(e).__name__)
-    # --- IndexError outside
+    # --- outside the range no molecule is returned: some exception is raised (the statement names no type)
     for i in (R, R + 1, R + 5, -R - 1, -R - 2) if sel("index_error") else ():
-        if skip_empty_last and R == 0 and i == -1:
-            continue     # System[-1] of an empty System: evaluated (once) by the solvent-only family
         try:
             m = s[i]
             res.bad("index_error", f"System[{i}] returns {_short(fingerprint(m))} although {what} has {R} molecules",
                     index=i)
-        except IndexError:
+        except Exception:
             res.ok("index_error")
-        except Exception as e:
-            res.bad("index_error", f"System[{i}] raises {_exc(e)} instead of IndexError ({what} has {R} molecules)",
-                    index=i, exc=type(e).__name__)
     # --- slices
     for grp, lst in SLICE_GROUPS.items():
         if not sel("slices:" + grp):
@@ -458,14 +508,10 @@ def check_system(s, exp, records, res, only=None, index_stride=1, skip_empty_las
         for sl in lst:
             sobj = slice(*sl)
             try:
-                got = s[sobj]
-                if not isinstance(got, list):
-                    res.bad(ck, f"System[slice{sl}] is a {type(got).__name__}, not a list", slice=list(sl))
-                    continue
-                fo = [fingerprint(m) for m in got]
-                if fo != ref[sobj]:
+                fo = [fingerprint(m) for m in s[sobj]]      # any iterable of molecules will do
+                if cores(fo) != ref[sobj]:
                     res.bad(ck, f"System[slice{sl}] gives {[_short(f) for f in fo][:10]}; "
-                                f"{what}[slice{sl}] gives {[_short(f) for f in ref[sobj]][:10]}", slice=list(sl))
+                                f"{what}[slice{sl}] gives {[_short(f) for f in ref_full[sobj]][:10]}", slice=list(sl))
                 else:
                     res.ok(ck)
             except Exception as e:
@@ -480,16 +526,13 @@ def check_refuses(s, ftops, absent, res):
             res.bad("refuses", f"add_ftop of the {SPECIES[key][0]} topology ({'-'.join(SPECIES[key][1])}) is accepted although "
                                f"the file has no matching run", absent=key)
             return
-        except OSError:
+        except Exception:        # "refused with an error": the statement names no type
             res.ok("refuses")
-        except Exception as e:
-            res.bad("refuses", f"add_ftop of the {SPECIES[key][0]} topology with no matching run raises {_exc(e)} "
-                               f"instead of IOError/OSError", absent=key, exc=type(e).__name__)
-            return
 
 
 def check_invariant(s, instances, loaded, res):
-    """Class invariant of the private block list (internal: labelled so; harness problems are undecided)."""
+    """Class invariant of the private block list.  Internal state is not in the statement: a mismatch (or an
+    unreadable private layout) is reported as undecided with the reason, never as a violation."""
     try:
         blocks = [list(map(int, b)) for b in s._molecules_ordered]
         nres = [len(m.resnames) for m in s.different_molecules]
@@ -525,7 +568,7 @@ def check_invariant(s, instances, loaded, res):
     if msg is None and covered != covered_exp:
         msg = f"blocks cover residues {sorted(covered)}; loaded instances occupy {sorted(covered_exp)}"
     if msg:
-        res.bad("invariant", msg)
+        res.undecided("invariant", "internal invariant does not hold (informational): " + msg)
     else:
         res.ok("invariant")
 
@@ -574,12 +617,8 @@ def run_case(files, seq, order, res, absent=None, fresh_absent=False, only=None,
                     res.bad("refuses", f"System(fgro, {SPECIES[key][0]} topology) is accepted although the file has no "
                                        f"matching run", absent=key, fresh=True)
                     break
-                except OSError:
+                except Exception:
                     res.ok("refuses")
-                except Exception as e:
-                    res.bad("refuses", f"System(fgro, {SPECIES[key][0]} topology) raises {_exc(e)} instead of "
-                                       f"IOError/OSError", absent=key, fresh=True, exc=type(e).__name__)
-                    break
         del s
     finally:
         if own:
@@ -744,7 +783,7 @@ def run_history(files, seq, order, split, via, only, on_stage, records=None, ins
             loaded = set(order[:n])
             exp = expected_molecules(records, instances, loaded)
             with contextlib.redirect_stdout(io.StringIO()):
-                check_system(s, exp, records, res, only=only, skip_empty_last=True)
+                check_system(s, exp, records, res, only=only)
             if sel("invariant"):
                 check_invariant(s, instances, loaded, res)
             if sel("refuses") and n == len(order):
@@ -899,9 +938,9 @@ def shipped_case(order, res, index_stride=1):
             continue
         name, atoms = spec[sig]
         rr = recs[start:start + n]
-        exp.append((name, tuple(r["name"] for r in rr), tuple(a[0] for a in atoms), tuple(r["resname"] for r in rr),
-                    tuple(r["resid"] for r in rr), tuple(r["atomid"] for r in rr),
-                    tuple(tuple(round(c, 6) for c in r["pos"]) for r in rr)))
+        exp.append((name, tuple(r["name"] for r in rr), tuple(a[0] for a in atoms),
+                    tuple(tuple(round(c, 6) for c in r["pos"]) for r in rr),
+                    (tuple(r["resname"] for r in rr), tuple(r["resid"] for r in rr), tuple(r["atomid"] for r in rr))))
     System = _System()
     try:
         with contextlib.redirect_stdout(io.StringIO()):
@@ -1044,10 +1083,11 @@ def task_guards(maxlen, seed):
                 check_system(_Proxy(real, mode), good, records, r)
                 g(f"{CLAUSES[clause]}/guard.must-fail.{mode}", set(r.fail) == want, {"failed": sorted(r.fail)})
         # 9. wrong internal invariant: "the solvent residues are consumed too"
-        if "invariant" not in r0.harness:     # private layout readable on this tree
+        if "invariant" not in r0.harness:     # private layout readable and invariant holding on this tree
             r = Result()
             check_invariant(real, instances, set(order) | {"W"}, r)
-            g(f"{CLAUSES['invariant']}/guard.must-fail.solvent-consumed", "invariant" in r.fail)
+            g(f"{CLAUSES['invariant']}/guard.must-fail.solvent-consumed",
+              r.harness.get("invariant", "").startswith("internal invariant does not hold"))
         del real
     finally:
         files.close()
